@@ -892,11 +892,15 @@ class StringNode(LeafNode):
         if isinstance(node, StringNode):
             if self.object == node.object:
                 return Match(self, node, 0)
-            elif len(self.object) == 1 and len(node.object) == 1:
+            elif self._is_single_character() and node._is_single_character():
                 return Match(self, node, 1)
             return StringEdit(self, node)
         else:
             return super().edits(node)
+
+    def _is_single_character(self) -> bool:
+        # the "characters" of a bytes object are integers (see string_edit_distance and StringFormatter.write_char)
+        return isinstance(self.object, int) or len(self.object) == 1
 
     def print(self, printer: Printer):
         StringFormatter.DEFAULT_INSTANCE.print(printer, self)
